@@ -6,7 +6,7 @@ From V Require Import C11.Model C11.Spec C11.Lemmas.
 From stdpp Require Import gmap.
 From Coq Require Import ZArith.
 From V Require Import Base.Codec Base.Res Sched.LedgerModel Sched.StmtModel Sched.GangModel Sched.LedgerCodec
-                      C04.Model C04.Frame C04.VoteLemmas C04.CapLemmas C04.Lemmas C04.Eligible C04.Codec.
+                      C04.Model C04.Frame C04.VoteLemmas C04.CapLemmas C04.Lemmas C04.Eligible C04.Placed C04.PlacedRun C04.Codec.
 Open Scope Z_scope.
 
 (* ---------- the votes ---------- *)
@@ -181,6 +181,42 @@ Theorem eviction_eligible : forall (eps : Z) (E : env) (cs : list choice) (s s' 
 Proof. exact Eligible.eviction_eligible. Qed.
 Print Assumptions eviction_eligible.
 
+(* ---------- the placement on the FINAL SESSION (observables) ---------- *)
+
+(* MAIN 1 on observables: for every run from a well-formed session, every pod in the evictor's accepted-call list
+   sat on the node of a committed node attempt, and in the final session the task that attempt was made for
+   is Pipelined on that same node *)
+Theorem evictions_with_final_placement : forall (eps : Z) (E : env) (cs : list choice) (s s' : sess) (lg : list arec),
+  wf s -> clear s -> run eps E s cs = (s', lg) ->
+  forall x, x ∈ evicts s' ->
+    x ∈ evicts s \/
+    exists r c q, r ∈ lg /\ a_ok r = true /\ c ∈ a_evicted r /\ t_id c = x /\ t_node c = Some (a_node r) /\
+                  heap s' !! t_id (a_task r) = Some q /\ t_status q = Pipelined /\ t_node q = Some (a_node r).
+Proof. exact PlacedRun.evictions_with_final_placement. Qed.
+Print Assumptions evictions_with_final_placement.
+
+(* the invariant is kept by every run (so the theorem composes over cycles of one session) *)
+Theorem runs_keep_sessions_well_formed : forall (eps : Z) (E : env) (cs : list choice) (s s' : sess) (lg : list arec),
+  wf s -> clear s -> run eps E s cs = (s', lg) ->
+  wf s' /\ forall r, r ∈ lg -> wf (a_pre r) /\ placed s' r.
+Proof. exact PlacedRun.run_placed. Qed.
+Print Assumptions runs_keep_sessions_well_formed.
+
+(* the converse side on the session state: an attempt that is not assigned leaves its preemptor Pending, every
+   Pipelined task object untouched and every Running / Bound / Releasing task in such a status *)
+Theorem failed_attempt_session : forall (eps : Z) (E : env) (k : akind) (s : sess) (tid : positive) (p : task) (pq : positive)
+    (a : attempt) (s' : sess) (v : Z) (lg : list arec),
+  wf s -> ops s nsid = [] -> heap s !! tid = Some p -> t_status p = Pending ->
+  run_attempt eps E k s p pq a = (s', false, v, lg) ->
+  wf s' /\ (exists p', heap s' !! tid = Some p' /\ t_status p' = Pending) /\ keep_pip s s' /\ keep_busy s s'.
+Proof. exact PlacedRun.failed_attempt_session. Qed.
+Print Assumptions failed_attempt_session.
+
+(* the well-formedness hypothesis is decidable; the entry evaluates the checker on every generated session *)
+Theorem wf_check_sound : forall s, wfb s = true -> wf s.
+Proof. exact wfb_sound. Qed.
+Print Assumptions wf_check_sound.
+
 (* ---------- faults ---------- *)
 
 (* Statement.Pipeline failing (a handler reports Event.Err for this placement): for EVERY fault
@@ -217,18 +253,29 @@ Theorem all_consulted_voters_respected_refuted :
 Proof. exact Eligible.all_consulted_voters_respected_refuted. Qed.
 Print Assumptions all_consulted_voters_respected_refuted.
 
-(* ---------- non-vacuity: a real cycle (harness seed 1, cycle-232: a node attempt whose Pipeline
-   fails by a scripted handler fault and is rolled back, then a committed eviction on another node) replayed by the model ---------- *)
-Definition ex_toks : list Z := [2; 2; 1; 1; 1500; 8912896; 7; 1; 2; 1; 1000; 8388608; 5; 0; 2; 1; 1; 2; 0; 0; 2; 1; 3; 2000; 0; 2; 1; 1; 0; 0; 3; 2; 1; 5; 0; 3; 6; 1; 1; 1; 0; 1000; 524288; 1; 6; 1; 1; 2; 2; 1; 2; 500; 0; 0; 1; 0; 1; 3; 2; 1; 2; 750; 1572864; 0; 1; 0; 0; 4; 2; 1; 1; 500; 0; 0; 6; 1; 1; 5; 2; 1; 1; 250; 3145728; 0; 1; 0; 1; 6; 2; 1; 0; 1500; 2097152; 0; 1; 0; 1; 2; 1; 0; 0; 2; 2; 0; 6; 1; 0; 2; 0; 3; 0; 4; 0; 5; 0; 6; 0; 2; 1; 2; 2; 1; 2; 1; 0; 0; 0; 0; 2; 0; 0; 0; 0; 3; 0; 2; 4; 1; 1; 1; 1; 1; 2; 2; 1; 1; 3; 1; 1; 2; 1; 2; 1; 3; 2; 0; 1; 1; 40000; 117440512; 1; 2; 1; 96; 4; 16000; 40000; 117440512; 1; 2; 1; 96; 4; 16000; 40000; 117440512; 1; 2; 1; 96; 4; 16000; 0; 3; 1; 2; 3; 2; 1; 1; 1; 1; 1; 1; 1; 1; 3; 1; 2; 0; 0; 0; 5; 1; 1; 0; 0; 0; 2; 2; 2; 1; 1; 1; 4; 1; 4; 1; 4; 2; 2; 3; 1; 2; 0; 0; 0].
-
-Definition ex_result : option (list positive * nat * bool) :=
-  match run_dec dCase ex_toks with
+(* ---------- non-vacuity: three real cycles (harness seed 1) replayed by the model.  Each result is
+   (evictor log, number of committed attempt records, all records ok, the session the cycle starts from is
+   well-formed): the hypotheses of the MAIN theorems hold and their conclusions are not vacuous.
+   A = cycle-523: a node attempt whose Pipeline fails by a scripted handler fault and is rolled back, then a
+       committed eviction on another node;
+   B = cycle-275: reclaim with the capacity plugin, several victims of one queue on one node;
+   C = cycle-435: intra-job preemption. ---------- *)
+Definition ex_of (toks : list Z) : option (list positive * nat * bool * bool) :=
+  match run_dec dCase toks with
   | Some c =>
     let sp := cs_spec c in
     let '(s', lg) := run (sp_eps sp) (env_of sp (cs_lims c) (cs_clims c)) (sess_of sp) (cs_choices c) in
-    Some (evicts s', length lg, forallb a_ok lg)
+    Some (evicts s', length lg, forallb a_ok lg, wfb (sess_of sp))
   | None => None
   end.
 
-Example ex_run_commits_an_eviction : ex_result = Some ([4%positive], 1%nat, true).
+Definition ex_toks_A : list Z := [2; 3; 1; 1; 1000; 8388608; 1; 0; 2; 1; 1000; 1048576; 1; 1; 3; 1; 500; 8912896; 3; 0; 1; 1; 1; 1; 0; 0; 3; 1; 1; 0; 0; 3; 2; 1; 4; 0; 3; 3; 1; 0; 0; 1; 6; 1; 1; 1; 2; 500; 524288; 0; 6; 3; 1; 2; 2; 1; 0; 500; 524288; 0; 1; 0; 1; 3; 2; 1; 1; 750; 2621440; 0; 1; 0; 1; 4; 2; 1; 1; 250; 2097152; 0; 1; 0; 1; 5; 2; 1; 2; 750; 2097152; 0; 1; 0; 0; 6; 3; 1; 0; 1000; 524288; 0; 1; 0; 1; 3; 1; 0; 0; 2; 3; 0; 3; 1; 0; 6; 1; 0; 2; 0; 3; 0; 4; 0; 5; 0; 6; 0; 1; 1; 2; 1; 1; 0; 0; 0; 0; 3; 0; 2; 3; 1; 1; 2; 1; 1; 0; 1; 1; 4; 2; 1; 2; 2; 3; 3; 4; 3; 0; 0; 0; 1; 1; 2; 3; 5; 1; 1; 0; 0; 0; 4; 1; 3; 1; 1; 1; 1; 1; 1; 2; 2; 2; 0; 0; 0; 3; 1; 1; 1; 1; 1; 1].
+Definition ex_toks_B : list Z := [2; 2; 1; 1; 1750; 6815744; 6; 0; 2; 1; 8000; 67108864; 4; 0; 3; 1; 1; 1; 0; 0; 2; 1; 1; 0; 0; 3; 1; 1; 0; 0; 3; 1; 1; 0; 0; 3; 2; 2; 1; 0; 3; 3; 3; 0; 0; 3; 5; 1; 1; 1; 0; 500; 2097152; 0; 6; 1; 1; 2; 1; 1; 0; 500; 2097152; 0; 6; 1; 1; 3; 1; 1; 1; 500; 2097152; 0; 6; 1; 1; 4; 2; 1; 1; 1500; 2097152; 0; 1; 0; 1; 5; 3; 1; 0; 8000; 33554432; 0; 6; 2; 1; 3; 1; 0; 0; 2; 2; 0; 3; 0; 0; 5; 1; 0; 2; 0; 3; 0; 4; 0; 5; 0; 3; 1; 1; 2; 1; 3; 2; 3; 1; 0; 0; 0; 0; 2; 0; 0; 0; 6291456; 3; 0; 0; 8000; 67108864; 1; 2; 1; 1; 1; 5; 1; 1; 1; 2; 0; 0; 0; 3; 1; 0; 0; 0; 0; 0; 0; 0; 0; 156000; 1182793728; 1; 1; 1; 160; 2; 0; 100663296; 0; 0; 0; 0; 0; 0; 156000; 1182793728; 1; 1; 1; 160; 3; 128000; 1073741824; 0; 0; 0; 0; 0; 0; 156000; 1182793728; 1; 1; 1; 160; 1; 3; 1; 2; 1; 4; 1; 1; 3; 1; 2; 3; 3; 3; 2; 1; 3; 3; 2; 1].
+Definition ex_toks_C : list Z := [2; 3; 1; 1; 500; 8388608; 2; 1; 2; 1; 1500; 6291456; 7; 2; 3; 1; 3750; 13107200; 7; 1; 3; 1; 1; 1; 0; 0; 2; 1; 4; 7000; 0; 3; 1; 4; 0; 0; 2; 1; 1; 3; 0; 2; 2; 2; 2; 0; 3; 6; 1; 1; 1; 2; 1500; 2621440; 0; 1; 0; 1; 2; 1; 1; 2; 1500; 2621440; 1; 2; 3; 1; 3; 1; 1; 1; 1000; 2097152; 1; 5; 2; 1; 4; 1; 1; 0; 1250; 2097152; 0; 6; 3; 0; 5; 1; 1; 1; 500; 3145728; 0; 6; 2; 1; 6; 2; 1; 2; 750; 1048576; 0; 1; 0; 1; 2; 1; 1; 0; 2; 3; 0; 6; 1; 0; 2; 0; 3; 0; 4; 0; 5; 0; 6; 0; 3; 1; 1; 2; 1; 3; 1; 3; 1; 0; 0; 0; 0; 2; 0; 0; 0; 0; 3; 0; 0; 0; 0; 2; 0; 3; 3; 1; 1; 2; 1; 1; 4; 1; 1; 2; 2; 1; 0; 1; 4; 2; 1; 80000; 201326592; 1; 2; 1; 80; 4; 32000; 80000; 201326592; 1; 2; 1; 80; 4; 32000; 80000; 201326592; 1; 2; 1; 80; 4; 32000; 2; 12000; 16777216; 1; 2; 1; 16; 4; 0; 12000; 16777216; 1; 2; 1; 16; 4; 0; 12000; 16777216; 1; 2; 1; 16; 4; 0; 0; 2; 1; 2; 1; 6; 1; 3; 0; 0; 0; 2; 1; 1; 1; 2; 2; 3; 5; 2; 5; 3; 2; 5; 3].
+
+Example ex_run_commits_an_eviction : ex_of ex_toks_A = Some ([1%positive], 2%nat, true, true).
+Proof. vm_compute. reflexivity. Qed.
+Example ex_capacity_reclaim : ex_of ex_toks_B = Some ([1%positive; 2%positive; 3%positive], 1%nat, true, true).
+Proof. vm_compute. reflexivity. Qed.
+Example ex_intra_job_preempt : ex_of ex_toks_C = Some ([3%positive; 5%positive], 2%nat, true, true).
 Proof. vm_compute. reflexivity. Qed.
